@@ -77,6 +77,8 @@ AcceptCodec(e) ==
       le == LEBytes(a, n)
   IN /\ e.enc = le /\ e.intenc = le /\ e.wrapenc = le /\ e.le = le /\ e.ne = le /\ e.be = Rev(le)
      /\ e.size = n /\ e.maxlen = n
+     /\ e.nested = <<7>> \o le \o <<9>> /\ e.appended = <<238>> \o le /\ e.optenc = <<1>> \o le
+     /\ ValIs(e.decnested, a)
      /\ ValIs(e.dec, a)
      /\ \A i \in 1..n : IsNone(e.decshort[i])
      /\ ~IsPanic(e.declong)
